@@ -358,9 +358,20 @@ func uncOps(r *rng.R, n int) []opSpec {
 		}
 		ops = append(ops, opSpec{Kind: "fund", V2: pv2, Amount: "1"}, opSpec{Kind: "broadcast", Ref: -1, ViaWallet: r.Bool()})
 	}
-	if r.Chance(1, 4) {
-		// spend an unconfirmed output again, still in the pool: children of children
-		ops = append(ops, opSpec{Kind: "fund", V2: v2, Amount: "bal+1", Unc: true}, opSpec{Kind: "broadcast", Ref: -1})
+	if r.Chance(3, 5) {
+		// a parent -> child chain in the pool: an unconfirmed output is spent again by a pooled
+		// transaction. Its reservation then ends (wallet restart that re-loads the broadcast
+		// sets, or the reservation period runs out): only the pool says it is spent
+		ops = append(ops, opSpec{Kind: "fund", V2: v2, Amount: "bal+1", Unc: true}, opSpec{Kind: "broadcast", Ref: -1, ViaWallet: v2})
+		switch r.Intn(3) {
+		case 0:
+			ops = append(ops, opSpec{Kind: "restart"})
+		case 1:
+			ops = append(ops, opSpec{Kind: "restart", NewCM: false}, opSpec{Kind: "sleep"})
+		default:
+			ops = append(ops, opSpec{Kind: "sleep"}, opSpec{Kind: "restart"})
+		}
+		ops = append(ops, opSpec{Kind: "fund", V2: v2, Amount: "bal+1", Unc: true}, opSpec{Kind: "fund", V2: v2, Amount: "bal+1", Unc: true, ThenRelease: true})
 	}
 	for i, m := 0, 2+r.Intn(4); i < m; i++ {
 		o := opSpec{Kind: "fund", V2: v2, Amount: []string{"bal+1", "bal+1", "p1+1", "2"}[r.Intn(4)], Unc: true}
